@@ -342,7 +342,11 @@ class IntervalTier(textgrid_tier.TextgridTier):
                     newTier.insertEntry(newEntry)
 
         if doShrink is True:
-            diff = end - start
+            # Times after the erased region are moved as 'start + (time - end)'
+            # rather than 'time - (end - start)': the former maps /end/ exactly
+            # onto /start/ and is monotonic under floating-point rounding, so
+            # shifted entries can neither overlap their neighbours nor miss
+            # the re-join test below because of a rounding error
             newEntryList = []
             for interval in newTier.entries:
                 if interval.end <= start:
@@ -350,7 +354,9 @@ class IntervalTier(textgrid_tier.TextgridTier):
                 elif interval.start >= end:
                     newEntryList.append(
                         Interval(
-                            interval.start - diff, interval.end - diff, interval.label
+                            start + (interval.start - end),
+                            start + (interval.end - end),
+                            interval.label,
                         )
                     )
 
@@ -375,7 +381,7 @@ class IntervalTier(textgrid_tier.TextgridTier):
                     # so if we've found it, move on
                     break
 
-            newMax = newTier.maxTimestamp - diff
+            newMax = start + (newTier.maxTimestamp - end)
             newTier = newTier.new(entries=newEntryList, maxTimestamp=newMax)
 
         return newTier
@@ -566,10 +572,12 @@ class IntervalTier(textgrid_tier.TextgridTier):
                     # Left side of the split
                     newEntryList.append(Interval(interval.start, start, interval.label))
                     # Right side of the split
+                    # (the end is computed like the start of a following
+                    # entry, so that the two cannot overlap through rounding)
                     newEntryList.append(
                         (
                             start + duration,
-                            start + duration + (interval.end - start),
+                            interval.end + duration,
                             interval.label,
                         )
                     )
